@@ -165,6 +165,12 @@ func (d *Directory) AddTimeBucket(tbk *io.TimeBucketKey, f *io.TimeBucketInfo) (
 	if err = io.CheckHeaderCapacity(f); err != nil {
 		return fmt.Errorf("bucket schema cannot be stored: %w", err)
 	}
+	// the items of the key become directory names under the root directory
+	for _, item := range tbk.GetItems() {
+		if item == "" || item == "." || item == ".." {
+			return fmt.Errorf("invalid item %q in bucket key %s", item, tbk.GetItemKey())
+		}
+	}
 
 	d.Lock()
 	defer d.Unlock()
